@@ -5,6 +5,7 @@ symmetry and rotation links keep their relation for leader moves of any size; `u
 -/
 import CBV.Lemmas.C17
 import CBV.Lemmas.C17Unique
+import CBV.Lemmas.C17Chord
 import Mathlib.Algebra.Order.Field.Basic
 import CBV.Gen.TC17
 
@@ -476,6 +477,73 @@ def sourceTable : List (String × List String) := [
 /-- every expression / statement list of `optimize/clamps`, `optimize/links` and `LineCurve` that a model definition
     transcribes is what the current source says (regenerated with `ast` on every run) -/
 theorem T_C17_source : sourceTable = Gen.c17Source := by rfl
+
+/-! ### Round 6c: two successive turns of the leader -/
+
+/-- two rotations about one axis compose to ONE quaternion rotation about it: `(w2, a) ∘ (w1, a) = (w1·w2 − |a|², (w1 + w2)·a)`
+    (the unnormalised quaternion product) — so after any number of exact turns of the leader the configuration is again
+    "leader turned about the axis by a quaternion", and `T_C17_rotation` / `T_C17_rotation_characterised` apply to the
+    composite: the follower of the composite move is the twice-turned original follower -/
+theorem T_C17_rotation_composes (w1 w2 : Rat) (a o p : V3) (h1 : w1 * w1 + V3.dot a a ≠ 0)
+    (h2 : w2 * w2 + V3.dot a a ≠ 0) :
+    rotP w2 a o (rotP w1 a o p) = rotP (w1 * w2 - V3.dot a a) (V3.smul (w1 + w2) a) o p ∧
+      rotationLink w2 a o (rotationLink w1 a o p) = rotationLink (w1 * w2 - V3.dot a a) (V3.smul (w1 + w2) a) o p := by
+  have h : rotP w2 a o (rotP w1 a o p) = rotP (w1 * w2 - V3.dot a a) (V3.smul (w1 + w2) a) o p := by
+    unfold rotP
+    rw [add_sub_cancel', rotLin_compose w1 w2 a (p - o) h1 h2]
+  exact ⟨h, h⟩
+
+example : (2 : Rat) * 2 + V3.dot (⟨1, 2, 2⟩ : V3) ⟨1, 2, 2⟩ ≠ 0 ∧ (-1 : Rat) * (-1) + V3.dot (⟨1, 2, 2⟩ : V3) ⟨1, 2, 2⟩ ≠ 0 := by
+  constructor <;> (c17_unfold; norm_num)
+
+/-! ### Round 6c: `CurveClamp` on a `CircleCurve` -/
+
+/-- for every rationally parametrised angle the position is on the declared circle: in the plane of the rim point normal
+    to the axis (same height along the normal), at the rim's distance from the origin; angle 0 is the rim point, and two
+    parameter steps add up as quaternions (`T_C17_rotation_composes`) -/
+theorem T_C17_curve_circle_on (o rim n : V3) (w mu : Rat) (hN : w * w + V3.dot (V3.smul mu n) (V3.smul mu n) ≠ 0) :
+    V3.dot (curveCircle o rim n w mu - o) n = V3.dot (rim - o) n ∧
+      V3.norm2 (curveCircle o rim n w mu - o) = V3.norm2 (rim - o) ∧
+      curveCircle o rim n w 0 = rim := by
+  have h := T_C17_radial_on o n w mu rim hN
+  refine ⟨h.1, h.2, ?_⟩
+  have := T_C17_initial_radial o n w rim
+  simpa [curveCircle, radialClamp] using this
+
+example : (3 : Rat) * 3 + V3.dot (V3.smul (1 / 2) (⟨1, 2, 2⟩ : V3)) (V3.smul (1 / 2) ⟨1, 2, 2⟩) ≠ 0 := by
+  c17_unfold; norm_num
+
+/-! ### Round 6c: the chord-length parameters of a `LinearInterpolatedCurve` -/
+
+/-- `InterpolatorBase.params` (equalised), computed by the model from the segment-length witnesses: for positive
+    lengths the parameters start at 0, end at 1, increase strictly (so `polyEval` over `chordKnots` is covered by
+    `T_C17_curve_polyline_on`), and consecutive parameters differ by the segment's share of the total length — a
+    parameter is an arc-length fraction of the polyline -/
+theorem T_C17_chord_params (pts : List V3) (lens : List Rat) (hne : lens ≠ []) (hpos : ∀ l ∈ lens, 0 < l) :
+    knotsOk (chordKnots pts lens) = true ∧ (chordParams lens).head? = some 0 ∧
+      (chordParams lens).getLast? = some 1 ∧
+      List.zipWith (fun b a => b - a) (chordParams lens).tail (chordParams lens) = lens.map (· / sumR lens) := by
+  have hT := sumR_pos lens hne hpos
+  refine ⟨?_, rfl, ?_, ?_⟩
+  · apply knotsOk_zip
+    have := cumul_incr (sumR lens) hT lens 0 hpos
+    simpa [chordParams] using this
+  · unfold chordParams
+    have hc : cumul 0 lens ≠ [] := by
+      cases lens with
+      | nil => exact absurd rfl hne
+      | cons l ls => simp [cumul]
+    rw [List.getLast?_cons_of_ne_nil (by simpa using hc), List.getLast?_map, cumul_last lens 0 hne]
+    simp [ne_of_gt hT]
+  · unfold chordParams
+    simp only [List.tail_cons]
+    have e : (0 : Rat) :: (cumul 0 lens).map (· / sumR lens) = ((0 : Rat) :: cumul 0 lens).map (· / sumR lens) := by simp
+    rw [e, zipWith_sub_map_div, cumul_diff]
+
+example : ([3, 4] : List Rat) ≠ [] ∧ (∀ l ∈ ([3, 4] : List Rat), 0 < l) ∧ chordParams [3, 4] = [0, 3 / 7, 1] := by
+  refine ⟨by simp, ?_, ?_⟩
+  · intro l hl; simp at hl; rcases hl with rfl | rfl <;> norm_num
+  · simp [chordParams, cumul, sumR]; norm_num
 
 /-! ### Round 6b: `transform()` is a query -/
 
